@@ -348,8 +348,9 @@ def showOptQ (m : Except PanicKind (Option Q)) (specOk : Q → Bool) : String :=
 /-- the deviations of `simplest_from_float` that the code in /repo CURRENTLY has (used only to
     attribute disagreements: the model result printed first is always the required one).
     Maintenance: when a proposed fix is applied to /repo, set its switch to `false` here —
-    `uniformUlp`, `oddIncl`, `panicUnlimited` ← proposed_fixes/fbig-error-bounds.diff;
-    `ceilHalf` has no patch yet (API decision).  (The former switches `conjSimpler` and
+    `uniformUlp`, `oddIncl` ← proposed_fixes/fbig-error-bounds.diff;
+    `ceilHalf` has no patch yet (API decision).  Unlimited precision needs no switch since round 6
+    (proposed_fixes/c18-simplest-from-float-unlimited.diff: exact value returned before `error_bounds`).  (The former switches `conjSimpler` and
     `zeroEndpoint` were deleted in round 5: /repo has 766946e and 5fc5674.) -/
 def activeQuirks : Quirks := Quirks.code
 
@@ -508,20 +509,52 @@ def dispatch18 : Dispatch := fun _W op args =>
         let why :=
           one { activeQuirks with uniformUlp := false } "full-ulp-below-power-of-base" ++
           one { activeQuirks with ceilHalf := false } "ceil-half-ulp-odd-base" ++
-          one { activeQuirks with oddIncl := false } "halfeven-inclusion-parity" ++
-          one { activeQuirks with panicUnlimited := false } "ulp-of-unlimited-precision"
+          one { activeQuirks with oddIncl := false } "halfeven-inclusion-parity"
         -- if no single deviation is necessary, those that alone suffice to leave the required result
         let suff (k : Quirks) (name : String) : List String :=
           if showR (run k true) ≠ req then [name] else []
         let anyOf :=
           suff { Quirks.none with uniformUlp := true } "full-ulp-below-power-of-base" ++
           suff { Quirks.none with ceilHalf := true } "ceil-half-ulp-odd-base" ++
-          suff { Quirks.none with oddIncl := true } "halfeven-inclusion-parity" ++
-          suff { Quirks.none with panicUnlimited := true } "ulp-of-unlimited-precision"
+          suff { Quirks.none with oddIncl := true } "halfeven-inclusion-parity"
         pure (req ++ " (code-path: " ++ code.replace " " "_" ++ " because " ++
           (if !why.isEmpty then ",".intercalate why
            else if !anyOf.isEmpty then "any-of:" ++ "+".intercalate anyOf else "combination") ++ ")")
     | .error k => pure (mismatch (panic k.name) "c18-unexpected-panic")
+  | "eb.bounds", [m, b, sg, e, pr] => do
+    -- (round 6) `<R as ErrorBounds>::error_bounds(&f)` called directly: `L R incl_L incl_R`
+    let mode ← parseMode m
+    let b ← parseDecNat b
+    let sg0 ← parseInt sg
+    let e0 ← parseDec e
+    let pr ← parseDecNat pr
+    if b < 2 ∨ sg0 = 0 then none
+    -- the harness builds the float by `Repr::new`, which strips trailing zero digits of the significand
+    let rec strip (fuel : Nat) (s : Int) (e : Int) : Int × Int :=
+      match fuel with
+      | 0 => (s, e)
+      | fuel + 1 => if s % (b : Int) = 0 then strip fuel (s / (b : Int)) (e + 1) else (s, e)
+    let (sg, e) := strip (sg0.natAbs + 1) sg0 e0
+    let showB : Except PanicKind (Option (Q × Q × Bool × Bool)) → Option String
+      | .ok (some (l, r, il, ir)) =>
+        match reduce l, reduce r with
+        | .ok l, .ok r => some (ok (showQ l ++ " " ++ showQ r ++ " " ++ boolStr il ++ " " ++ boolStr ir))
+        | _, _ => none
+      | .ok none => none
+      | .error k => some (panic k.name)
+    let req ← showB (errorBoundsFBig Quirks.none false mode b sg e pr)
+    let code ← showB (errorBoundsFBig activeQuirks true mode b sg e pr)
+    if code = req then pure req
+    else
+      let one (k : Quirks) (name : String) : List String :=
+        if showB (errorBoundsFBig k true mode b sg e pr) ≠ some code then [name] else []
+      let why :=
+        one { activeQuirks with uniformUlp := false } "full-ulp-below-power-of-base" ++
+        one { activeQuirks with ceilHalf := false } "ceil-half-ulp-odd-base" ++
+        one { activeQuirks with oddIncl := false } "halfeven-inclusion-parity" ++
+        (if pr = 0 then ["ulp-of-unlimited-precision"] else [])
+      pure (req ++ " (code-path: " ++ code.replace " " "_" ++ " because " ++
+        (if !why.isEmpty then ",".intercalate why else "combination") ++ ")")
   | _, _ => none
 
 /-- group dispatcher: C04 ops, then C18 ops -/
